@@ -147,6 +147,19 @@ Definition table_of (s : state) (t : tid) : table := match st_cb s t with Some t
 Definition iter_table (cfg : deviations) (s : state) (t : tid) : table :=
   if d_live_iter cfg then table_of s t else tr_snap (st_task s t).
 
+(* CPython's dict iterator raises RuntimeError when the dict's size differs from the size at loop start ("changed size
+   during iteration") and - only observable when the live dict is iterated - when it finds yet another entry after having
+   yielded as many as the dict had at loop start ("keys changed during iteration": an entry was removed and another one
+   added while a callback was suspended).  The number yielded so far is the number of logged calls of t. *)
+Definition loop_fails (cfg : deviations) (s : state) (t : tid) (cur n0 : nat) : bool :=
+  let tb := iter_table cfg s t in
+  negb (Nat.eqb (length (tbl_live tb)) n0)
+  || (d_live_iter cfg &&
+      match tbl_next cur tb with
+      | Some _ => Nat.leb n0 (length (filter (fun e => N.eqb (fst (fst e)) t) (st_log s)))
+      | None => false
+      end).
+
 (* the body is over (return / exception / CancelledError): enter the [finally] *)
 Definition end_body (s : state) (t : tid) (o : outcome) : state :=
   let r := st_task s t in
@@ -276,7 +289,7 @@ Definition step (cfg : deviations) (s : state) (l : label) : option state :=
       match tr_phase r with
       | PFin cur n0 false false =>
           let tb := iter_table cfg s t in
-          if negb (Nat.eqb (length (tbl_live tb)) n0) then Some (escape s t OEscape)   (* dict changed size *)
+          if loop_fails cfg s t cur n0 then Some (escape s t OEscape)   (* dict changed size / keys changed *)
           else match tbl_next cur tb with
                | Some (cur', (j, a)) => Some (add_log (set_task s t (set_phase r (PFin cur' n0 true false))) (t, j, a))
                | None => None
